@@ -157,6 +157,26 @@ func c11Plot(m *Metrics, tag string) (out []c11Finding) {
 	return
 }
 
+// c11PlotConstant: all latencies equal v - every row of the hdrplot report shows v (in ms, 6 decimals).
+func c11PlotConstant(m *Metrics, v time.Duration) (out []c11Finding) {
+	var buf bytes.Buffer
+	if err := NewHDRHistogramPlotReporter(m).Report(&buf); err != nil {
+		return []c11Finding{{"pct:hdrplot:error:constant-sweep", err.Error()}}
+	}
+	want := float64(v) / 1e6
+	for i, ln := range strings.Split(strings.TrimRight(buf.String(), "\n"), "\n")[1:] {
+		f := strings.Fields(ln)
+		if len(f) == 0 {
+			continue
+		}
+		ms, err := strconv.ParseFloat(f[0], 64)
+		if err != nil || ms < want-0.0000006 || ms > want+0.0000006 {
+			return []c11Finding{{"pct:hdrplot:all-equal:row-differs:constant-sweep", fmt.Sprintf("row %d shows %sms, every latency is %.6fms", i, f[0], want)}}
+		}
+	}
+	return nil
+}
+
 // c11Run feeds lats in the given arrival order through the public Metrics
 // API (closeEach: Close after every Add as a live report would).
 func c11Run(lats []time.Duration, closeEach bool) *Metrics {
@@ -345,6 +365,9 @@ func TestC11(t *testing.T) {
 			R.Eval(1)
 			R.Trans(n + 1)
 			fs := c11Check(m, lats, "constant-sweep", n == 1)
+			if cvals[i] < 1<<53 { // a float64 holds the value exactly: the plotted percentiles are that value too
+				fs = append(fs, c11PlotConstant(m, cvals[i])...)
+			}
 			for k := range fs {
 				fs[k].detail = map[string]any{"what": fs[k].detail, "value_ns": int64(cvals[i]), "samples": n}
 			}
